@@ -711,6 +711,14 @@ where
                 mode = 1;
                 vm = fresh();
             }
+            Ok(Err(e)) if e.contains("TransactionInputsMax") => {
+                // more assets (the base asset always counts) than `max_inputs` balance slots: since
+                // fix 5957d67 init_script refuses such a transaction (it used to panic, C29 F11);
+                // counted, predicate context instead
+                obs.class("script:init-refused-assets-exceed-max-inputs");
+                mode = 1;
+                vm = fresh();
+            }
             Ok(Err(e)) => fail!("harness-init-script", "init_script failed: {e}"),
             Err((loc, _msg)) if loc.contains("interpreter/balances.rs") => {
                 // more assets (the base asset always counts) than `max_inputs` balance slots:
